@@ -1,5 +1,5 @@
 SPECIFICATION Spec
 INVARIANTS WellFormed NoPanicNoHang AfterCloseClosed ClosedOnlyIfCloseBegan CancelledOnlyWithCtx
-  StatsNeverFail DictOpsSucceed FirstCloseOk PreCancelledFails UsableAfterCancel
+  StatsNeverFail DictOpsSucceed CloseOkOrClosedOnce PreCancelledFails UsableAfterCancel
   ReaderExcludesWriter LoopQuietAfterWait CloseWaitsForReaders NoLeakAfterClose
 CHECK_DEADLOCK FALSE
